@@ -987,6 +987,17 @@ impl Gen {
         st.out.ok
     }
 
+    /// `who` moves the price of vamm `v` by roughly `pct_ppm` (up if `up`)
+    pub fn move_price_by(&mut self, h: &mut History, r: &mut Report, who: &str, v: usize, up: bool, pct_ppm: u128) -> bool {
+        let d = h.w.d;
+        let q = h.last.vamms[v].q;
+        let n = (q * pct_ppm / 2_000_000).max(1);
+        let init = h.last.eng.initial.max(1);
+        let lev = (d * d / init).max(d);
+        let st = self.open(h, r, who, v, up, (n * d / lev).max(1), lev, 0);
+        st.out.ok
+    }
+
     /// push `victim`'s engine-reported margin ratio on `v` down to <= target; true when reached
     pub fn push_underwater(&mut self, h: &mut History, r: &mut Report, victim: &str, v: usize, target: i128, max_iter: usize) -> bool {
         for _ in 0..max_iter {
@@ -1411,7 +1422,61 @@ impl Gen {
         }
     }
 
+    /// A position that is large relative to the reserves (notional 0.8 .. 2 x the quote reserve), a price move by
+    /// somebody else, then a reduction by 85 .. 99 % of its value (and, where a band and a partial ratio are set, a
+    /// ClosePosition that trips the band): the states in which the pro-rata remainder of the open notional is negative.
+    pub fn macro_oversized_reduce(&mut self, h: &mut History, r: &mut Report) {
+        let cands: Vec<usize> = (0..h.w.vamms.len()).filter(|i| { let v = &h.last.vamms[*i]; v.open && v.registered && v.fluct == 0 && v.oi_cap == 0 && v.holding_cap == 0 }).collect();
+        if cands.is_empty() || h.last.eng.paused {
+            return;
+        }
+        let v = *self.rng.pick(&cands);
+        let d = h.w.d;
+        let t = "whale";
+        if h.last.pos(v, t).map(|p| p.size != 0).unwrap_or(false) {
+            return;
+        }
+        let q = h.last.vamms[v].q;
+        let n = q / 100 * self.rng.u128_range(100, 400);
+        let init = h.last.eng.initial.max(1);
+        let lev = (d * d / init).max(d);
+        let margin = (n / lev * d + n % lev * d / lev).max(1);
+        h.step(Op::Send { from: "bank".into(), to: t.into(), amount: margin.saturating_mul(2) + n / 5 }, r);
+        let long = self.rng.chance(1, 2);
+        if !self.open(h, r, t, v, long, margin, lev, 0).out.ok {
+            return;
+        }
+        self.advance(h, r, 1, 6);
+        // somebody else moves the price in the position's favour or against it
+        // (a large move in the position's favour makes the remaining cost basis small next to what the curve pays
+        // for the first part of a big sale: that is where the pro-rata remainder turns negative)
+        let fav = self.rng.chance(4, 5);
+        let pct = if fav { self.rng.u128_range(100_000, 1_500_000) } else { self.rng.u128_range(10_000, 120_000) };
+        let mover = self.pick_trader();
+        h.step(Op::Send { from: "bank".into(), to: mover.into(), amount: h.last.vamms[v].q / 10 }, r);
+        self.move_price_by(h, r, mover, v, long == fav, pct);
+        if self.rng.chance(1, 2) {
+            self.advance(h, r, 1, 6);
+        }
+        let Some(p) = h.last.pos(v, t).cloned() else { return };
+        let pn = h.w.output_amount(v, p.long_dir, p.size.unsigned_abs()).unwrap_or(0);
+        if pn == 0 {
+            return;
+        }
+        let cut = pn / 1000 * self.rng.u128_range(900, 995);
+        r.count("macro:oversized-reduce-attempts");
+        if self.open(h, r, t, v, !p.long_dir, cut.max(1), d, 0).out.ok {
+            r.count("macro:oversized-reduce-done");
+        }
+        if self.rng.chance(1, 2) {
+            self.close(h, r, t, v, 0);
+        }
+    }
+
     pub fn macro_reversal(&mut self, h: &mut History, r: &mut Report) {
+        if self.rng.chance(1, 4) {
+            return self.macro_oversized_reduce(h, r);
+        }
         let Some((t, v)) = self.rand_pos(h) else { return };
         let Some(p) = h.last.pos(v, &t).cloned() else { return };
         if p.size == 0 {
